@@ -6,15 +6,26 @@ Import ListNotations.
 
 (* ---- one try of exec, in closed form ----------------------------------------------------------------------- *)
 Definition ret_of (o : outcome) : exec_ret :=
-  match o with OOk => XNil | OPerm | OWrongType => XPermanent | OErr | OOverrun => XRetryable end.
+  match o with
+  | OOverrun => XRetryable
+  | ORet PBad _ => XPermanent
+  | ORet _ PNoErr => XNil
+  | ORet _ PTrans => XRetryable
+  | ORet _ PPerm => XPermanent
+  end.
 
+(* what exec stores for invocation k with outcome o: a wrong-typed response is never stored (and the plugin's
+   error is replaced by the engine's permanent type error); otherwise the pair as returned *)
 Definition rec_resp (k : nat) (o : outcome) : resp_obs :=
-  match o with OOk => RGood k | _ => RNone end.
+  match o with ORet PGood _ => RGood k | _ => RNone end.
 
 Definition rec_err (k : nat) (o : outcome) : err_obs :=
   match o with
-  | OOk => ENone | OErr => EPlug k false | OPerm => EPlug k true
-  | OWrongType => EEngine true | OOverrun => EEngine false
+  | OOverrun => EEngine false
+  | ORet PBad _ => EEngine true
+  | ORet _ PNoErr => ENone
+  | ORet _ PTrans => EPlug k false
+  | ORet _ PPerm => EPlug k true
   end.
 
 Definition step_events (o : outcome) (n : nat) : list aevent :=
@@ -44,7 +55,7 @@ Proof.
   intros H. unfold exec. destruct (r <? length (w_attempts w)) eqn:E.
   - apply Nat.ltb_lt in E. lia.
   - unfold step_world, step_events.
-    destruct (s (w_calls w)); cbn; rewrite app_length; cbn; rewrite Nat.add_1_r; reflexivity.
+    destruct (s (w_calls w)) as [|[] []]; cbn; rewrite app_length; cbn; rewrite Nat.add_1_r; reflexivity.
 Qed.
 
 (* invocations = AStart events of the trace *)
@@ -113,14 +124,20 @@ Definition Stopped_ok (r : nat) (s : nat -> outcome) (w : world) : Prop :=
   (forall i, S i < w_calls w -> is_final (s i) = false) /\
   (is_final (s (pred (w_calls w))) = true \/ w_calls w = S r).
 
-Lemma ret_of_nil o : ret_of o = XNil <-> o = OOk.
-Proof. destruct o; cbn; split; congruence. Qed.
+Lemma ret_of_nil o : ret_of o = XNil <-> is_ok o = true.
+Proof. destruct o as [|[] []]; cbn; split; congruence. Qed.
 
 Lemma ret_of_perm o : ret_of o = XPermanent -> is_final o = true.
-Proof. destruct o; cbn; congruence. Qed.
+Proof. destruct o as [|[] []]; cbn; congruence. Qed.
 
 Lemma ret_of_retry o : ret_of o = XRetryable -> is_final o = false.
-Proof. destruct o; cbn; congruence. Qed.
+Proof. destruct o as [|[] []]; cbn; congruence. Qed.
+
+Lemma is_ok_final o : is_ok o = true -> is_final o = true.
+Proof. destruct o as [|[] []]; cbn; congruence. Qed.
+
+Lemma is_ok_ret o : is_ok o = (match ret_of o with XNil => true | _ => false end).
+Proof. destruct o as [|[] []]; reflexivity. Qed.
 
 (* what the loop is entered with *)
 Definition LoopPre (r : nat) (s : nat -> outcome) (w : world) (e : exec_ret) : Prop :=
@@ -129,7 +146,7 @@ Definition LoopPre (r : nat) (s : nat -> outcome) (w : world) (e : exec_ret) : P
   e = ret_of (s (pred (w_calls w))) /\ e <> XNil.
 
 Definition Post (r : nat) (s : nat -> outcome) (st : status) (w : world) (e : exec_ret) : Prop :=
-  Inv s w /\ Stopped_ok r s w /\ (e = XNil <-> s (pred (w_calls w)) = OOk) /\ w_status w = st.
+  Inv s w /\ Stopped_ok r s w /\ (e = XNil <-> is_ok (s (pred (w_calls w))) = true) /\ w_status w = st.
 
 Lemma retry_loop_spec r s : forall fuel w e,
   LoopPre r s w e -> S (S r) <= fuel + pred (w_calls w) ->
@@ -143,7 +160,7 @@ Proof.
       exists w, XPermanent. split; [reflexivity|].
       split; [exact HI|]. split; [|split; [|reflexivity]].
       * repeat split; try assumption. left. apply ret_of_perm. congruence.
-      * split; [congruence|]. intros Hok. rewrite Hok in He. cbn in He. congruence.
+      * split; [congruence|]. intros Hok. apply ret_of_nil in Hok. congruence.
     + (* retryable: the loop sleeps and calls exec again *)
       assert (Hlast : is_final (s (pred (w_calls w))) = false) by (apply ret_of_retry; congruence).
       destruct (Nat.eq_dec (w_calls w) (S r)) as [Hex|Hex].
@@ -153,7 +170,7 @@ Proof.
         exists w, XPermanent. split; [reflexivity|].
         split; [exact HI|]. split; [|split; [|reflexivity]].
         -- repeat split; try assumption. right. exact Hex.
-        -- split; [congruence|]. intros Hok. rewrite Hok in Hlast. cbn in Hlast. congruence.
+        -- split; [congruence|]. intros Hok. apply is_ok_final in Hok. congruence.
       * rewrite exec_call by (rewrite (inv_len _ _ HI); lia).
         assert (HI' : Inv s (step_world s w)) by (apply inv_step; exact HI).
         assert (Hnf' : forall i, S i < w_calls (step_world s w) -> is_final (s i) = false).
@@ -164,7 +181,7 @@ Proof.
         -- exists (step_world s w), XNil. split; [reflexivity|].
            split; [exact HI'|]. split; [|split; [|reflexivity]].
            ++ split; [cbn; lia|]. split; [cbn; lia|]. split; [exact Hnf'|].
-              left. cbn. apply ret_of_nil in Er. rewrite Er. reflexivity.
+              left. cbn. apply is_ok_final. apply ret_of_nil. exact Er.
            ++ cbn. split; [intros _; apply ret_of_nil; exact Er|reflexivity].
         -- destruct (IH (step_world s w) XPermanent) as (w' & e' & Hrun & Hpost).
            ++ split; [exact HI'|]. cbn. split; [lia|]. split; [lia|]. split; [exact Hnf'|].
@@ -190,7 +207,7 @@ Proof.
   - exists (step_world s w), XNil. split; [reflexivity|].
     split; [exact HI'|]. split; [|split; [|reflexivity]].
     + split; [cbn; lia|]. split; [cbn; lia|]. split; [exact Hnf'|].
-      left. cbn. apply ret_of_nil in Er. rewrite Er. reflexivity.
+      left. cbn. apply is_ok_final. apply ret_of_nil. exact Er.
     + cbn. split; [intros _; apply ret_of_nil; exact Er|reflexivity].
   - destruct (retry_loop_spec r s (r + 2) (step_world s w) XPermanent) as (w' & e' & Hrun & Hpost).
     + split; [exact HI'|]. cbn. split; [lia|]. split; [lia|]. split; [exact Hnf'|].
@@ -289,27 +306,29 @@ Proof.
                rev (map (fun i => (rec_resp i (s i), rec_err i (s i))) (seq 0 (S k)))) by (rewrite map_rev, Hr; reflexivity).
   rewrite seq_S, map_app, rev_app_distr in Hm. cbn in Hm.
   destruct (rev (w_attempts w)) as [|a l]; [discriminate|].
-  cbn in Hm. inversion Hm as [[R1 R2 R3]]. rewrite R2. destruct (s k); reflexivity.
+  cbn in Hm. inversion Hm as [[R1 R2 R3]]. rewrite R2. destruct (s k) as [|[] []]; reflexivity.
 Qed.
 
 Lemma final_status r s :
   let w := run_action r s in
   w_status w = (if last_ok (w_attempts w) then Completed else Failed) /\
-  (w_status w = Completed <-> s (pred (w_calls w)) = OOk) /\
+  (w_status w = Completed <-> is_ok (s (pred (w_calls w))) = true) /\
   ((forall i, i <= r -> is_final (s i) = false) -> w_status w = Failed /\ length (w_attempts w) = S r).
 Proof.
   destruct (run_action_spec r s) as (w & e & _ & (HI & (H1 & H2 & H3 & H4) & He & _) & _ & ->). cbn.
   rewrite (last_ok_spec s w HI H1).
   assert (Hst : (match e with XNil => true | _ => false end) = is_ok (s (pred (w_calls w)))).
-  { destruct e; destruct (s (pred (w_calls w))) eqn:Es; cbn; try reflexivity;
-      try (destruct He as [He1 He2]; try (specialize (He1 eq_refl); congruence); try (specialize (He2 eq_refl); congruence)). }
+  { destruct He as [He1 He2]. destruct (is_ok (s (pred (w_calls w)))) eqn:Eo.
+    - rewrite (He2 eq_refl). reflexivity.
+    - destruct e; try reflexivity. specialize (He1 eq_refl). discriminate. }
   rewrite Hst. split; [reflexivity|]. split.
-  - destruct (s (pred (w_calls w))); cbn; split; congruence.
+  - destruct (is_ok (s (pred (w_calls w)))); cbn; split; congruence.
   - intros Hall. destruct H4 as [H4|H4].
     + rewrite Hall in H4 by lia. discriminate.
     + split.
-      * assert (Hf := Hall (pred (w_calls w))). destruct (s (pred (w_calls w))); cbn in *; try reflexivity.
-        specialize (Hf ltac:(lia)). discriminate.
+      * assert (Hf := Hall (pred (w_calls w)) ltac:(lia)).
+        destruct (is_ok (s (pred (w_calls w)))) eqn:Eo; [|reflexivity].
+        apply is_ok_final in Eo. congruence.
       * rewrite (inv_len _ _ HI). exact H4.
 Qed.
 
@@ -342,13 +361,12 @@ Proof.
   { unfold ast_of. destruct (w_calls w) as [|k] eqn:Ek.
     - eexists. split; [reflexivity|reflexivity].
     - specialize (Hnf k eq_refl). eexists. split.
-      + unfold after_ret. destruct (s k); cbn in Hnf; try discriminate;
-          (destruct (S k <=? r) eqn:E; [reflexivity|apply Nat.leb_gt in E; lia]).
+      + unfold after_ret. rewrite Hnf. destruct (S k <=? r) eqn:E; [reflexivity|apply Nat.leb_gt in E; lia].
       + cbn. apply Nat.eqb_refl. }
   destruct Hst as (img & -> & Himg).
   assert (Hle : (w_calls w <=? r) = true) by (apply Nat.leb_le; exact Hr).
   unfold step_events.
-  destruct (s (w_calls w)) eqn:Eo; cbn; rewrite ?Hle, ?Himg; cbn; rewrite ?Nat.eqb_refl; cbn; reflexivity.
+  destruct (s (w_calls w)) as [|[] []] eqn:Eo; cbn; rewrite ?Hle, ?Himg; cbn; rewrite ?Nat.eqb_refl; cbn; reflexivity.
 Qed.
 
 Lemma trace_inv_loop r s : forall fuel w e w' e',
@@ -404,17 +422,13 @@ Proof.
   unfold ast_of. destruct (w_calls w) as [|k] eqn:Ek; [lia|]. cbn [pred] in *.
   rewrite (inv_len _ _ HI), Ek.
   assert (Hph : after_ret r k (s k) = APend (match e with XNil => true | _ => false end) (S k)).
-  { destruct He as [He1 He2]. unfold after_ret.
-    destruct (s k) eqn:Es; cbn in H4.
-    - rewrite (He2 eq_refl). reflexivity.
+  { destruct He as [He1 He2]. unfold after_ret. destruct (is_final (s k)) eqn:Ef.
+    - destruct (is_ok (s k)) eqn:Eo.
+      + rewrite (He2 eq_refl). reflexivity.
+      + destruct e; try reflexivity. specialize (He1 eq_refl). discriminate.
     - destruct H4 as [H4|H4]; [discriminate|].
       destruct (S k <=? r) eqn:E; [apply Nat.leb_le in E; lia|].
-      destruct e; try reflexivity. specialize (He1 eq_refl). discriminate.
-    - destruct e; try reflexivity. specialize (He1 eq_refl). discriminate.
-    - destruct e; try reflexivity. specialize (He1 eq_refl). discriminate.
-    - destruct H4 as [H4|H4]; [discriminate|].
-      destruct (S k <=? r) eqn:E; [apply Nat.leb_le in E; lia|].
-      destruct e; try reflexivity. specialize (He1 eq_refl). discriminate. }
+      destruct e; try reflexivity. specialize (He1 eq_refl). apply is_ok_final in He1. congruence. }
   cbn. rewrite Hph. cbn. rewrite eqb_reflx, Nat.eqb_refl. cbn.
   unfold astep, handle, stutter. cbn. rewrite eqb_reflx, Nat.eqb_refl. cbn. reflexivity.
 Qed.
